@@ -332,6 +332,19 @@ func (a *actor) runReader(t *thread) {
 			a.pc = n + 1
 			w.ev(e)
 		})
+		// the application asks ReadBackoff right after the return, as the
+		// package example does, and only then touches a BigMessage
+		var backoff <-chan struct{}
+		if rs.Backoff {
+			backoff = c.ReadBackoff(err)
+			if err == nil || d.Big {
+				select {
+				case <-backoff:
+				default:
+					a.later(func() { w.ev(Event{K: "backoff", T: a.spec.Name, N: -1, R: d.Class}) })
+				}
+			}
+		}
 		if d.Big && rs.ReadBig {
 			w.sch.park(t, "app:readall", kindApp)
 			if a.dead() {
@@ -346,20 +359,10 @@ func (a *actor) runReader(t *thread) {
 		if errors.Is(err, mqtt.ErrClosed) {
 			return
 		}
-		if rs.Backoff {
-			ch := c.ReadBackoff(err)
-			if err == nil || d.Big {
-				// no backoff: the channel must be closed already
-				select {
-				case <-ch:
-				default:
-					a.later(func() { w.ev(Event{K: "backoff", T: a.spec.Name, N: -1, R: d.Class}) })
-				}
-				continue
-			}
+		if rs.Backoff && err != nil && !d.Big {
 			t0 := time.Now()
-			if ch != nil {
-				<-ch
+			if backoff != nil {
+				<-backoff
 			}
 			ms := int(time.Since(t0) / time.Millisecond)
 			cls := d.Class
